@@ -1,0 +1,15 @@
+//go:build verif
+
+package hub
+
+import (
+	"github.com/enbility/ship-go/api"
+)
+
+// More hooks for the verification harness in /verif (build tag "verif"). Add-only.
+
+// VerifRegisterChecked registers a (fake) connection the way ServeHTTP (incomingRequest
+// true) and connectFoundService (false) do after Run().
+func (h *Hub) VerifRegisterChecked(c api.ShipConnectionInterface, incomingRequest bool) {
+	h.registerCheckedConnection(c, incomingRequest)
+}
